@@ -80,15 +80,6 @@ Proof.
   rewrite Hx. auto.
 Qed.
 
-Lemma add_task_nth_keep : forall s i p,
-  Inv2 s -> nth_error (ws s) i = Some p -> w_idle p = false -> nth_error (ws (add_task s)) i = Some p.
-Proof.
-  intros s i p HI Hi Hp. destruct (add_task_cases s) as [(_ & -> & _)|(w & r & Eq & -> & _)]; auto.
-  rewrite nth_error_upd_other; auto. intro; subst.
-  assert (Hw : nth_error (ws s) i = Some WIdle) by (apply (i2_qw _ HI); rewrite Eq; left; auto).
-  rewrite Hw in Hi. inversion Hi; subst. discriminate.
-Qed.
-
 Lemma g6_step_w : forall c s i ch s' l,
   Inv1 s -> Inv2 s -> Inv3 s -> G6 c s -> step_w c s i ch = Some (s', l) -> taint s' = false -> G6 c s'.
 Proof.
